@@ -90,6 +90,7 @@ def run(ctx, rep):
     rep.guarded('D4.d4', d4, ctx, rep)
     rep.guarded('D5.d5', d5, ctx, rep)
     rep.guarded('D6.d6', d6, ctx, rep)
+    rep.guarded('D7.d7_readonly', d7_readonly, ctx, rep)
 
 
 def d6(ctx, rep):
@@ -321,9 +322,46 @@ def d1(ctx, rep):
                   f'{clsn}: the columns given to select_copula are not the two nodes of the edge being created', construct=f'{clsn} first tree columns')
 
 
+def _attached_on_every_build(ctx, rep, tree):
+    """Tree.fit: every path that builds the edges of the tree also computes their h-functions (prepare_next_tree) before fit returns."""
+    from ..cfg import CFG
+    from .c15 import _reach_without
+    fit = tree.methods.get('fit')
+    if fit is None:
+        return
+    cons = 'h-functions attached to every built tree'
+    def fills_edges(name):
+        # some definition of the method (in Tree or a subclass) adds to self.edges, itself or in a private helper it calls
+        from ..idioms import private_closure
+        for c_ in ctx.prog.classes.values():
+            if tree in c_.mro() and name in c_.methods:
+                for g in private_closure(ctx, c_.methods[name], c_):
+                    for x in walk_no_nested(g.node):
+                        if isinstance(x, ast.Call) and isinstance(x.func, ast.Attribute) and x.func.attr in ('append', 'extend', 'insert') and is_self_attr(x.func.value, g.self_name, 'edges'):
+                            return True
+                        if isinstance(x, ast.Assign) and any(is_self_attr(t, g.self_name, 'edges') for t in x.targets) and g is not fit:
+                            return True
+        return False
+    builds = [c for c in walk_no_nested(fit.node) if isinstance(c, ast.Call) and is_self_attr(c.func, fit.self_name) and fills_edges(c.func.attr)]
+    preps = [c for c in walk_no_nested(fit.node) if isinstance(c, ast.Call) and is_self_attr(c.func, fit.self_name, 'prepare_next_tree')]
+    if not builds or not preps:
+        rep.undecided('D2.correct', fit, fit.node.name, 'the calls that build the edges / compute their h-functions were not found in Tree.fit', construct=cons)
+        return
+    cfg = CFG(fit.node)
+    prep_ids = {cfg.node_containing(c).id for c in preps}
+    for b in builds:
+        esc = _reach_without(cfg, cfg.node_containing(b), prep_ids)
+        if cfg.exit.id in esc:
+            rep.bad('D2.correct', fit, b, f'after `{short(b, 40)}` Tree.fit can return without prepare_next_tree(): the edges of that tree keep U = None, no pseudo-observations are '
+                    'attached to them', construct=cons)
+        else:
+            rep.ok('D2.correct', fit, b, f'`{short(b, 40)}` is always followed by prepare_next_tree()', construct=cons)
+
+
 def d2(ctx, rep):
     prog = ctx.prog
     tree = prog.cls(TREE + 'Tree')
+    _attached_on_every_build(ctx, rep, tree)
     fn = tree.methods['prepare_next_tree']
     pd_calls = [s for s in walk_no_nested(fn.node) if isinstance(s, ast.Assign) and isinstance(s.value, ast.Call) and call_name(s.value) == 'partial_derivative'
                 and isinstance(s.targets[0], ast.Name)]
@@ -403,9 +441,16 @@ def d2(ctx, rep):
         if isinstance(s_, ast.Assign) and isinstance(s_.targets[0], (ast.Tuple, ast.List)) and isinstance(s_.value, ast.Call) and len(s_.value.args) == 2 \
                 and all(isinstance(x, ast.Name) for x in s_.value.args) and len(s_.targets[0].elts) >= 2 and all(isinstance(x, ast.Name) for x in s_.targets[0].elts[:2]):
             node_of_parent = {s_.value.args[0].id: (s_.targets[0].elts[0].id, 'left'), s_.value.args[1].id: (s_.targets[0].elts[1].id, 'right')}
+    sels = []
     for s in walk_no_nested(gcu.node):
         if isinstance(s, ast.Assign) and isinstance(s.value, ast.IfExp):
-            t, a, b = s.value.test, s.value.body, s.value.orelse
+            sels.append((s, s.value.test, s.value.body, s.value.orelse))
+        elif isinstance(s, ast.If) and len(s.body) == 1 and len(s.orelse) == 1 and isinstance(s.body[0], ast.Assign) and isinstance(s.orelse[0], ast.Assign) \
+                and len(s.body[0].targets) == 1 and len(s.orelse[0].targets) == 1 and isinstance(s.body[0].targets[0], ast.Name) \
+                and ast.dump(s.body[0].targets[0]) == ast.dump(s.orelse[0].targets[0]):
+            sels.append((s, s.test, s.body[0].value, s.orelse[0].value))        # the statement form of the same selection
+    for s, t, a, b in sels:
+        if True:
             while isinstance(t, ast.UnaryOp) and isinstance(t.op, ast.Not):
                 t, a, b = t.operand, b, a            # `x if not c else y` is `y if c else x`
             if isinstance(t, ast.Compare) and len(t.ops) == 1 and isinstance(t.ops[0], ast.NotEq):
@@ -653,7 +698,29 @@ def d5(ctx, rep):
     if isinstance(ln, tuple) and ln[0] == 'len':
         rep.check('D5.schema', fn, rets[-1], ln[1] == fn.params[1], f'{ln[1]} rows', f'the frame has {ln[1]} rows, not num_rows', construct='sample rows')
     else:
-        rep.undecided('D5.schema', fn, rets[-1], f'row count not derivable ({ln})', construct='sample rows')
+        # positive evidence of a short table: a `for _ in range(num_rows)` loop whose iteration can end without appending its row
+        skipped = None
+        if isinstance(data, ast.Name):
+            for lp in [x for x in walk_no_nested(fn.node) if isinstance(x, ast.For)]:
+                it = lp.iter
+                if not (isinstance(it, ast.Call) and isinstance(it.func, ast.Name) and it.func.id == 'range' and len(it.args) == 1 and isinstance(it.args[0], ast.Name)
+                        and it.args[0].id == fn.params[1]):
+                    continue
+                apps = [c for c in ast.walk(lp) if isinstance(c, ast.Call) and isinstance(c.func, ast.Attribute) and c.func.attr == 'append'
+                        and isinstance(c.func.value, ast.Name) and c.func.value.id == data.id]
+                if len(apps) != 1:
+                    continue
+                st_a = stmt_of(apps[0])
+                jumps = [x for x in ast.walk(lp) if isinstance(x, (ast.Continue, ast.Break)) and x.lineno < st_a.lineno]
+                if jumps:
+                    skipped = (jumps[0], 'a `continue`/`break` placed before the append')
+                elif st_a not in lp.body:
+                    skipped = (st_a, 'the append is under a condition')
+        if skipped:
+            rep.bad('D5.schema', fn, skipped[0], f'an iteration of `for ... in range({fn.params[1]})` can end without appending its row ({skipped[1]}) and no replacement is drawn: '
+                    f'sample({fn.params[1]}) can return fewer rows than requested', construct='sample rows')
+        else:
+            rep.undecided('D5.schema', fn, rets[-1], f'row count not derivable ({ln})', construct='sample rows')
     rep.check('D5.schema', fn, fn.node.name, RANDOM_STATE_DECORATOR in fn.decorators, '@random_state', 'not under @random_state', construct='sample decorator')
     sr = prog.method(VINE, '_sample_row')
     # roles of the locals of the row sampler (found by what they are, not by their names)
@@ -800,3 +867,72 @@ def d5(ctx, rep):
             rep.bad('D5.schema', sr, c, 'percent_point arguments are not (probability, conditioning value)', construct=f'percent_point arguments: {short(c, 40)}')
         else:
             rep.undecided('D5.schema', sr, c, 'which argument of percent_point is the conditioning value was not derived', construct=f'percent_point arguments: {short(c, 40)}')
+
+
+_INPLACE = {'add', 'update', 'discard', 'remove', 'pop', 'clear', 'append', 'extend', 'insert', 'sort', 'reverse', 'setdefault', 'popitem',
+            'intersection_update', 'difference_update', 'symmetric_difference_update', 'fill', 'put', 'resize', 'itemset'}
+
+
+def d7_readonly(ctx, rep):
+    """Queries leave the fitted vine as it is: likelihood and sampling are functions of (model, argument) only if evaluating them does
+    not edit the trees.  Positive evidence only: an in-place operation on a container that is an attribute of an object reached from
+    `self` without a copy, in a function that only the query entry points reach."""
+    prog = ctx.prog
+    rep.rule('D7.readonly', 'no function reached only from sample / get_likelihood / to_dict edits in place a container held by the fitted model (an attribute of an '
+             'object reached from self without a copy)')
+    vine = prog.cls('copulas.multivariate.vine.VineCopula')
+    entries = [m for m in (vine.lookup(n_) for n_ in ('sample', 'get_likelihood', 'to_dict')) if m is not None]
+    fit = vine.lookup('fit')
+    q_closure = ctx.cg.closure(entries, concrete=None)
+    f_closure = ctx.cg.closure([fit], concrete=None) if fit is not None else {}
+    fns = [f for qn, f in sorted(q_closure.items()) if qn not in f_closure and f.cls is not None and f.cls.module.name.startswith('copulas.multivariate') and f.self_name]
+    n = 0
+    for f in fns:
+        held = {f.self_name: 'self'}     # local name -> description of the model object / container it stands for
+        aliases = {}                      # local name bound to <held>.<attr> (a container of the model), not copied
+
+        def root(e):
+            while isinstance(e, (ast.Attribute, ast.Subscript)):
+                e = e.value
+            return e.id if isinstance(e, ast.Name) else None
+        for _ in range(4):
+            for s_ in walk_no_nested(f.node):
+                if isinstance(s_, ast.Assign) and len(s_.targets) == 1 and isinstance(s_.targets[0], ast.Name) and isinstance(s_.value, (ast.Attribute, ast.Subscript)) \
+                        and root(s_.value) in held:
+                    nm = s_.targets[0].id
+                    others = [a for a in walk_no_nested(f.node) if isinstance(a, ast.Assign) and a is not s_ and any(isinstance(t, ast.Name) and t.id == nm for t in a.targets)]
+                    if not others:
+                        held.setdefault(nm, short(s_.value, 40))
+                        if isinstance(s_.value, ast.Attribute):
+                            aliases.setdefault(nm, s_.value)
+                elif isinstance(s_, ast.For):
+                    it = s_.iter
+                    tg = s_.target
+                    if isinstance(it, ast.Call) and isinstance(it.func, ast.Name) and it.func.id == 'enumerate' and it.args and isinstance(tg, ast.Tuple) and len(tg.elts) == 2:
+                        it, tg = it.args[0], tg.elts[1]
+                    if isinstance(tg, ast.Name) and isinstance(it, (ast.Attribute, ast.Subscript, ast.Name)) and root(it) in held:
+                        held.setdefault(tg.id, f'an element of {short(it, 40)}')
+        n += 1
+        hits = []
+        for x in walk_no_nested(f.node):
+            tgt = None
+            if isinstance(x, ast.Call) and isinstance(x.func, ast.Attribute) and x.func.attr in _INPLACE:
+                recv = x.func.value
+                if isinstance(recv, ast.Name) and recv.id in aliases:
+                    tgt = aliases[recv.id]
+                elif isinstance(recv, ast.Attribute) and root(recv) in held and recv.attr not in ('trees', ) and not (isinstance(recv.value, ast.Name) and recv.value.id == f.self_name):
+                    tgt = recv
+            elif isinstance(x, ast.AugAssign) and isinstance(x.target, ast.Name) and x.target.id in aliases \
+                    and isinstance(x.value, (ast.Set, ast.List, ast.SetComp, ast.ListComp, ast.Dict)):
+                tgt = aliases[x.target.id]          # `s |= {...}` / `l += [...]` on a set / list updates it in place
+            elif isinstance(x, ast.AugAssign) and isinstance(x.target, ast.Attribute) and root(x.target) in held and root(x.target) != f.self_name:
+                tgt = x.target
+            if tgt is not None:
+                hits.append((x, tgt))
+        for x, tgt in hits:
+            rep.bad('D7.readonly', f, x, f'`{short(x, 50)}` updates `{short(tgt, 30)}` in place: a container of the fitted model, reached from self without a copy; '
+                    'after this query the stored vine differs from the one fit produced', construct=f'{f.node.name}: fitted state only read')
+        if not hits:
+            rep.ok('D7.readonly', f, f.node.name, 'no in-place update of a container reached from self', construct=f'{f.node.name}: fitted state only read')
+    if n == 0:
+        rep.undecided('D7.readonly', entries[0] if entries else fit, 'VineCopula', 'no query-only function found')
